@@ -47,7 +47,7 @@ impl Prop for C02 {
         serde_json::to_string(&c.text()).unwrap()
     }
     fn rule(&self) -> String {
-        "models as in C01 with a min/max objective from the numeric sort (nested abs/min/max under mixed-sign scales, division by negative constants, logic values in arithmetic, sub-expressions shared with the constraints); at every source-feasible point of the test set (see C01) the best value of the linear objective incl. offset over all auxiliary extensions, in the model's direction, is computed exactly and must equal the source objective there (exact for dyadic data, 1e-6 relative otherwise); unbounded or missing extensions are violations. For all-discrete models the test set is the full domain, so equality of optimal value, argmin set and infeasible status follows and is checked explicitly. Non-trivial = objective contains a non-affine operator and >=3 feasible points with pairwise different objective values. Distinct = distinct model text.".into()
+        "models as in C01 with a min/max objective from the numeric sort (nested abs/min/max under mixed-sign scales, division by negative constants, logic values in arithmetic, sub-expressions shared with the constraints); at every source-feasible point of the test set (see C01) the best value of the linear objective incl. offset over all auxiliary extensions, in the model's direction, is computed exactly and must equal the source objective there (exact for dyadic data, 1e-6 relative otherwise); unbounded or missing extensions are violations (a missing extension is reported here as well as by C01). For all-discrete models the test set is the full domain, so equality of optimal value, argmin set and infeasible status follows and is checked explicitly. Non-trivial = objective contains a non-affine operator and >=3 feasible points with pairwise different objective values. Distinct = distinct model text.".into()
     }
     fn check(&self, case: &ModelCase) -> Outcome {
         check_objective(case, 40)
@@ -78,6 +78,30 @@ pub fn directed_cases() -> Vec<ModelCase> {
         mk(vec![x(), y()], SObj::Min(SExp::Min(vec![v("x0"), v("x1")]))),
         mk(vec![x(), y()], SObj::Max(SExp::Sub(n(1.0).b(), SExp::Max(vec![v("x0"), v("x1"), n(0.0)]).b()))),
         mk(vec![x(), y()], SObj::Min(SExp::Div(SExp::Max(vec![v("x0"), v("x1")]).b(), n(-2.0).b()))),
+        // a dominated operand in front of two retained ones whose ranges differ (pruning must not
+        // shift the bounds used for the selector rows)
+        mk(
+            vec![("x0", Dom::Real(Some(-10.0), Some(100.0))), ("x1", Dom::Real(Some(-100.0), Some(50.0)))],
+            SObj::Max(SExp::Sub(SExp::Max(vec![n(-200.0), v("x0"), v("x1")]).b(), v("x1").b())),
+        ),
+        mk(
+            vec![("x0", Dom::Real(Some(-10.0), Some(100.0))), ("x1", Dom::Real(Some(-100.0), Some(50.0)))],
+            SObj::Min(SExp::Add(SExp::Min(vec![n(300.0), v("x1"), v("x0")]).b(), v("x0").b())),
+        ),
+        mk(
+            vec![("x0", Dom::Real(Some(0.0), Some(3.0))), ("x1", Dom::Real(Some(-4.0), Some(2.0)))],
+            SObj::Max(SExp::Sub(SExp::Max(vec![n(-6.0), v("x0"), v("x1")]).b(), v("x1").b())),
+        ),
+        mk(
+            vec![("x0", Dom::Int(0, 3)), ("x1", Dom::Int(-4, 2))],
+            SObj::Min(SExp::Add(SExp::Min(vec![n(9.0), v("x1"), v("x0")]).b(), v("x0").b())),
+        ),
+        // factors and divisors of tiny / huge magnitude still have a sign
+        mk(vec![x()], SObj::Min(SExp::Mul(SExp::Abs(v("x0").b()).b(), n(-0.000001).b()))),
+        mk(vec![x(), y()], SObj::Min(SExp::Div(SExp::Max(vec![v("x0"), v("x1")]).b(), n(-1000000.0).b()))),
+        // a quotient with a constant term below a unary minus, abs, min, max
+        mk(vec![x()], SObj::Min(SExp::Add(SExp::Neg(SExp::Div(SExp::Add(v("x0").b(), n(4.0).b()).b(), n(2.0).b()).b()).b(), n(1.0).b()))),
+        mk(vec![x()], SObj::Min(SExp::Abs(SExp::Div(SExp::Sub(v("x0").b(), n(6.0).b()).b(), n(2.0).b()).b()))),
     ]
 }
 
@@ -126,10 +150,16 @@ pub fn check_objective(case: &ModelCase, max_points: usize) -> Outcome {
             }
         };
         match ext {
-            Extension::No => {
-                // feasibility is C01's business; here the value cannot be compared
-                continue;
-            }
+            // no extension at all: the rows that lower the objective cut the point off, so there is
+            // no linear value to compare (also a C01 violation; reported here because the objective's
+            // own selector rows are what C02's models add)
+            Extension::No => push(
+                "no-extension-at-source-feasible-point",
+                format!(
+                    "at source-feasible {{{}}} no assignment of the auxiliaries satisfies the linear model; source objective {}\n{}\nsource:\n{}",
+                    env_text(env), want, lin, case.text()
+                ),
+            ),
             Extension::Unbounded => push(
                 "objective-unbounded-over-auxiliaries",
                 format!(
